@@ -2,7 +2,7 @@
     A killed build is a build whose configuration has [c_crashed = true] together with ANY sets [c_ran] (function bodies
     that ran) and [c_recorded] (records renamed into place): the model cuts every target that is not in them, so the
     theorems below quantify over every crash point of every schedule, not over a sequential prefix. *)
-From Dawn Require Import Build.Model Build.Proofs Build.Proofs_Fresh Build.Proofs_Stale Build.Proofs_Skip.
+From Dawn Require Import Build.Model Build.CleanCheck Build.Proofs Build.Proofs_Fresh Build.Proofs_Stale Build.Proofs_Skip Build.Proofs_Clean Build.Proofs_CleanDec.
 
 (** Whatever happened before -- including failed and killed builds at arbitrary points -- the persisted records never lie:
     a success record is exactly the snapshot of an execution that was recorded. *)
@@ -53,6 +53,56 @@ Proof.
   unfold rec_of, set_rec; cbn [w_recs]. rewrite lookup_update_same. repeat split.
 Qed.
 Print Assumptions failed_body_reruns.
+
+(** A build killed at ANY point: every function target whose body ran without its final record being written is marked
+    for re-run in the state the dead process leaves -- provided it had been marked before its body started ([crash_wf]:
+    what the pre-body mark of fix 4e7688b establishes; the harness observes it on every killed build and reports a body
+    that ran unmarked and unrecorded as a violation). *)
+Theorem killed_body_is_marked :
+  forall c w l x,
+    c_dry c = false -> crash_wf c -> link_ok (w_proj w) = true ->
+    Sc c x = true -> r_rerun (rec_of (o_w (build c w l)) x) = true.
+Proof.
+  intros c w l x Hdry Hwf Hlink HS. unfold build. rewrite load_proj, Hlink. cbn [o_w].
+  destruct (Sc_true c x HS) as [Hc Hr]. apply premark_marks; [exact Hc|exact Hdry|apply Hwf; exact HS|exact Hr].
+Qed.
+Print Assumptions killed_body_is_marked.
+
+(** Convergence: after ANY history that ends in a killed build (and may contain others, failed builds, edits,
+    collections), the next build that succeeds leaves exactly the generated files an uninterrupted from-scratch build of
+    the same tree produces -- [incremental_eq_clean] read for C03.  ([hist_okb]: environment determines behaviour, one
+    generator per path, no edits of generated paths, every killed build marked before running.) *)
+Theorem interrupted_build_converges :
+  forall h ck lk c l,
+    c_crashed ck = true ->
+    let h' := h ++ [OBuild ck lk] in
+    hist_okb h' = true ->
+    let w := run_history h' in
+    c_dry c = false -> c_crashed c = false -> link_ok (w_proj w) = true ->
+    topo_ok (w_proj w) [] (order_of (w_proj w) l) = true ->
+    let o := build c w l in
+    (forall x, In x (order_of (w_proj w) l) -> exists v, lookup x (o_vis o) = Some v) ->
+    (forall x v, lookup x (o_vis o) = Some v -> v_res v = ROk) ->
+    let o' := build cfg0 (wipe (o_w o)) l in
+    (forall p, lookup p (w_files (o_w o')) = lookup p (w_files (o_w o))) /\
+    (forall x v, lookup x (o_vis o') = Some v -> v_res v = ROk) /\
+    (forall x d, In x (order_of (w_proj w) l) -> lookup x (w_proj w) = Some d -> is_fn d = true -> In x (o_ran o')) /\
+    o_bad o' = false.
+Proof. intros h ck lk c l _ h' H. exact (Proofs_CleanDec.incremental_eq_clean_checked h' c l H). Qed.
+Print Assumptions interrupted_build_converges.
+
+(** non-vacuity: a build killed inside the body of [1] (marked, its output half-written, never recorded) after an edit;
+    the history satisfies [hist_okb], the recovery build succeeds and runs [1] and its dependent again *)
+Example interrupted_example :
+  let pr := [(1, Fn [] [10] [100] 1 7 false); (3, Fn [1] [] [101] 3 9 false); (10, Src 50)] in
+  let c := mkCfg false false [] false [] [] [] in
+  let killed := mkCfg false false [] true [1] [10] [1] in
+  let h := [OSetProj pr; OSetFile 50 (Some (CLit 1)); OBuild c 3; OSetFile 50 (Some (CLit 2))] in
+  let w := run_history (h ++ [OBuild killed 3]) in
+  hist_okb (h ++ [OBuild killed 3]) = true /\ r_rerun (rec_of w 1) = true /\
+  link_ok (w_proj w) = true /\ topo_ok (w_proj w) [] (order_of (w_proj w) 3) = true /\
+  o_ran (build c w 3) = [1; 3] /\ forallb (fun lv => result_ok (v_res (snd lv))) (o_vis (build c w 3)) = true.
+Proof. vm_compute. repeat split. Qed.
 
 (** the records stay loadable: every record file is renamed into place atomically (hypothesis on rename(2)), a killed
     build therefore leaves old or new complete records plus inert temporaries, which the model counts in [w_stray] and gc
